@@ -253,6 +253,8 @@ class EffectDomain(DefaultDomain):
             return None
         if a == b:
             return True
+        if any(isinstance(v, tuple) and v[:1] == ("sym",) and isinstance(v[1], str) and v[1].startswith(("<object #", "<module sentinel")) for v in (a, b)):
+            return False   # a plain object() is equal to itself only
         for x, y in ((a, b), (b, a)):
             if isinstance(x, tuple) and x[:1] == ("typeof",) and isinstance(x[1], tuple) and x[1][:1] == ("exc",) and isinstance(y, tuple) and y[:1] in (("excclass",), ("ctorref",), ("classref",)):
                 cname = y[1].split(".")[-1] if isinstance(y[1], str) else getattr(y[1], "name", None)
@@ -1520,6 +1522,9 @@ class EffectDomain(DefaultDomain):
             e_ = st.get("<handling>", None)
             if e_ is not None:
                 return [val(exc_info_of(e_), st)]
+        if d == "sys.exception" and not call.args and not call.keywords and d not in self.results:
+            # (3.11) the exception being handled in this frame, or None
+            return [val(st.get("<handling>", None) or NONE, st)]
         if d == "type" and len(call.args) == 1 and not call.keywords:
             out = []
             known = True
@@ -1596,6 +1601,14 @@ class EffectDomain(DefaultDomain):
                         out.append(r)
                     elif ok_ and isinstance(p_, tuple) and not {"tuple", "list"} & set(names_):
                         out.append(val(FALSE, r.state))   # a list / tuple is an instance of neither str, bytes, int ...
+                    elif r.kind == "val" and isinstance(r.value, tuple) and r.value[:1] in (("excclass",), ("classref",), ("inst",), ("func",), ("method",), ("boundmethod",), ("bound",), ("builtin",),
+                                                                                              ("partial",), ("exc",), ("typeof",), ("pytype",), ("ctorref",)):
+                        # a class, a function, an exception: not a str / number / tuple / dict; an instance of a repository class: by its bases
+                        based = False
+                        if r.value[:1] == ("inst",) and len(r.value) == 3 and hasattr(self.classes, "mro"):
+                            bases = {(dotted(b) or "").split(".")[-1] for c in self.classes.mro(r.value[2]) for b in getattr(c, "base_exprs", ())}
+                            based = bool(bases & (set(names_) | ({"list"} if "tuple" in names_ else set())))
+                        out.append(val(TRUE if based else FALSE, r.state))
                     elif ok_ and p_ is not None and not isinstance(p_, tuple):
                         out.append(val(TRUE if any(isinstance(p_, types_[n_]) and not (types_[n_] is int and isinstance(p_, bool) and "bool" not in names_ and False) for n_ in names_) else FALSE, r.state))
                     else:
